@@ -28,24 +28,40 @@ fn args() -> (String, HashMap<String, String>) {
     (cmd, m)
 }
 
-/// A run of the real crate that does not come back is a tool error (exit 2), reported with the offending text.
+/// A call into the real crate that does not come back is reported with the offending text (exit code 3, which
+/// bin/check turns into a violation). The watchdog counts the CPU time this process burns while one and the same
+/// guarded call is open, not wall-clock time: a machine under load can stall a process for a long time, but a call that
+/// has consumed 15 s of CPU without returning is spinning. (Outside guarded calls only a far larger budget applies.)
 pub static WATCHDOG: std::sync::atomic::AtomicU64 = std::sync::atomic::AtomicU64::new(0);
+pub static IN_CALL: std::sync::atomic::AtomicI64 = std::sync::atomic::AtomicI64::new(0);
 pub static WATCH_TEXT: std::sync::Mutex<String> = std::sync::Mutex::new(String::new());
 pub static HANG_FILE: std::sync::Mutex<String> = std::sync::Mutex::new(String::new());
+
+/// user + system CPU time of this process in seconds (from /proc/self/stat; clock ticks are 100 per second on Linux)
+fn cpu_seconds() -> f64 {
+    let stat = std::fs::read_to_string("/proc/self/stat").unwrap_or_default();
+    // the fields after the parenthesised command name; utime and stime are the 14th and 15th fields of the line
+    let rest = stat.rsplit(')').next().unwrap_or("");
+    let f: Vec<&str> = rest.split_whitespace().collect();
+    let ticks = |i: usize| f.get(i).and_then(|x| x.parse::<f64>().ok()).unwrap_or(0.0);
+    (ticks(11) + ticks(12)) / 100.0
+}
 
 fn start_watchdog() {
     std::thread::spawn(|| {
         let mut last = 0;
-        let mut since = std::time::Instant::now();
+        let mut since_cpu = cpu_seconds();
         loop {
             std::thread::sleep(std::time::Duration::from_millis(500));
             let now = WATCHDOG.load(std::sync::atomic::Ordering::Relaxed);
+            let open = IN_CALL.load(std::sync::atomic::Ordering::Relaxed) > 0;
+            let cpu = cpu_seconds();
             if now != last {
                 last = now;
-                since = std::time::Instant::now();
-            } else if now != 0 && since.elapsed().as_secs() > 20 {
+                since_cpu = cpu;
+            } else if now != 0 && ((open && cpu - since_cpu > 15.0) || cpu - since_cpu > 900.0) {
                 let text = WATCH_TEXT.lock().unwrap().clone();
-                eprintln!("HANG: a call into the crate did not return within 20 s; input:\n{text}");
+                eprintln!("HANG: a call into the crate did not return within 15 s of CPU time; input:\n{text}");
                 let f = HANG_FILE.lock().unwrap().clone();
                 if !f.is_empty() {
                     let _ = std::fs::write(&f, serde_json::json!({"hang": text}).to_string());
